@@ -3,6 +3,7 @@ package main
 import (
 	"bufio"
 	"context"
+	"database/sql"
 	"database/sql/driver"
 	"encoding/hex"
 	"encoding/json"
@@ -118,6 +119,7 @@ type bindObs struct {
 	line     string
 	sql      string
 	args     []string // name=value prints
+	argTypes []string // dynamic Go types of the values the driver received
 	query    bool
 	prepErr  string
 	qErr     string
@@ -297,6 +299,7 @@ func implBind(c bindCase) (o bindObs) {
 			pv := printVal(reflect.ValueOf(a.Value))
 			parts = append(parts, "("+hx(a.Name)+" "+pv+")")
 			o.args = append(o.args, a.Name+"="+pv)
+			o.argTypes = append(o.argTypes, dynType(reflect.ValueOf(a.Value)))
 		}
 	} else {
 		parts = append(parts, "NO-RUN-EVENT")
@@ -526,6 +529,7 @@ func cmdBind(args []string) int {
 			st.Samples = append(st.Samples, fmt.Sprintf("%s | samples %d | args %d -> %s", c.query, len(c.samples), len(c.args), trunc(o.line, 200)))
 		}
 	}
+	typedNilProbe(addViol)
 	cw.Flush()
 	iw.Flush()
 	cases.Close()
@@ -534,6 +538,28 @@ func cmdBind(args []string) int {
 	os.WriteFile(*outDir+"/stats.json", sb, 0o644)
 	fmt.Printf("bind: %d cases, results %v, %d oracle violations\n", st.Cases, st.Results, nviol)
 	return 0
+}
+
+// typedNilProbe: members of interface type holding typed nil pointers ("including nil and typed-nil values",
+// C18).  The model does not describe such values (DESIGN section 9), so they go to the implementation only; the
+// oracles are the ones every binding case meets: an error or a run, never a panic.
+func typedNilProbe(add func(violation)) {
+	vals := []any{(*time.Time)(nil), (*Amount)(nil), (*sql.NullString)(nil), (*int)(nil), (*Person)(nil), (*MyStr)(nil),
+		(*reflect.Value)(nil), (*sqlair.M)(nil), (*[]int)(nil), (*error)(nil), (*PtrValuer)(nil)}
+	queries := []string{"INSERT INTO t (*) VALUES ($Loose.*)", "INSERT INTO t (id, x) VALUES ($Loose.*)",
+		"INSERT INTO t (x, v) VALUES ($Loose.x, $Loose.v)", "SELECT 1 FROM t WHERE x = $Loose.x OR v = $Loose.v"}
+	for _, v := range vals {
+		l := Loose{ID: 1, V: v, X: v}
+		for _, q := range queries {
+			for _, arg := range []any{l, &l, []Loose{l, l}, []*Loose{&l}} {
+				if rt := reflect.TypeOf(arg); rt.Kind() == reflect.Slice && !strings.HasPrefix(q, "INSERT INTO t (*)") && !strings.HasPrefix(q, "INSERT INTO t (id") {
+					continue
+				}
+				c := bindCase{query: q, samples: []any{Loose{}}, args: []any{arg}}
+				bindOracles(c, implBind(c), add)
+			}
+		}
+	}
 }
 
 func trunc(s string, n int) string {
